@@ -336,8 +336,20 @@ def run(R):
     est = enhanced_stream(R, H, M, g, out, quick)
     H.close()
     M.close()
+    # Model/SimplePlan.v (the planner behind `replace`, literal mode) against the real create_simple_plan, hunk by hunk and stats
+    env = dict(core.ENV, RN_HARNESS=str(hp), RN_ROCQ=str(core.ROCQ), RN_WORK=str(core.BUILD / "simpleplan_work"))
+    rc, txt, dt = core.sh(["python3", str(core.VERIF / "lib" / "simpleplan_difftest.py"), str(R.seed + 31), "100" if quick else "1500"],
+                          env=env, timeout=3000)
+    m1 = __import__("re").search(r"compared (\d+) hunks in (\d+) cases", txt)
+    m2 = __import__("re").search(r"DISAGREEMENTS: (\d+)", txt)
+    spt = {"hunks_compared": int(m1.group(1)) if m1 else 0, "cases": int(m1.group(2)) if m1 else 0,
+           "disagreements": int(m2.group(1)) if m2 else None}
+    if not m1 or not m2 or int(m1.group(1)) == 0:
+        out["dis"].append({"why": "the simple-planner differential run did not complete", "log": txt[-1500:]})
+    elif int(m2.group(1)) > 0:
+        out["dis"].append({"why": "Model/SimplePlan.v differs from scanner.rs::create_simple_plan", "log": txt[txt.find("DISAGREEMENTS"):][:2500]})
     R.coverage["input_distribution"] = {"plans": out["plans"], "hunks_checked": out["hunks"], "by_planner": out["by_planner"],
-                                        "enhanced_matcher_stream": est}
+                                        "enhanced_matcher_stream": est, "simple_planner_model": spt}
     R.disagreements = len(out["dis"])
     for f in out["fail"][:3]:
         R.violation(f["why"], {"kind": "impl_failure", **f})
